@@ -79,6 +79,34 @@ struct Reading {
     full: String,
 }
 
+/// the documented prefixes: (long name, short spellings, binary?, exponent)
+fn documented_prefix_rows() -> Vec<PrefixRow> {
+    let metric: &[(&str, &[&str], i32)] = &[
+        ("quecto", &["q"], -30), ("ronto", &["r"], -27), ("yocto", &["y"], -24), ("zepto", &["z"], -21), ("atto", &["a"], -18),
+        ("femto", &["f"], -15), ("pico", &["p"], -12), ("nano", &["n"], -9), ("micro", &["µ", "μ", "u"], -6), ("milli", &["m"], -3),
+        ("centi", &["c"], -2), ("deci", &["d"], -1), ("deca", &["da"], 1), ("hecto", &["h"], 2), ("kilo", &["k"], 3), ("mega", &["M"], 6),
+        ("giga", &["G"], 9), ("tera", &["T"], 12), ("peta", &["P"], 15), ("exa", &["E"], 18), ("zetta", &["Z"], 21), ("yotta", &["Y"], 24),
+        ("ronna", &["R"], 27), ("quetta", &["Q"], 30),
+    ];
+    let binary: &[(&str, &[&str], i32)] = &[
+        ("kibi", &["Ki"], 10), ("mebi", &["Mi"], 20), ("gibi", &["Gi"], 30), ("tebi", &["Ti"], 40), ("pebi", &["Pi"], 50),
+        ("exbi", &["Ei"], 60), ("zebi", &["Zi"], 70), ("yobi", &["Yi"], 80), ("robi", &["Ri"], 90), ("quebi", &["Qi"], 100),
+    ];
+    let mut v = Vec::new();
+    for (tbl, bin) in [(metric, false), (binary, true)] {
+        for (long, shorts, exp) in tbl {
+            v.push(PrefixRow {
+                long: long.to_string(),
+                shorts: shorts.iter().map(|s| s.to_string()).collect(),
+                prefix: PrefixV { binary: bin, exp: *exp },
+                text_short: shorts[0].to_string(),
+                text_long: long.to_string(),
+            });
+        }
+    }
+    v
+}
+
 fn none_prefix() -> PrefixV {
     PrefixV { binary: false, exp: 0 }
 }
@@ -1323,7 +1351,28 @@ fn main() {
     let mut out = Out::new(&args);
     out.rule = "EXHAUSTIVE part (both tiers, sessions `use prelude` and `use all`): every registered unit alias x every row of the prefix table x (long name, every short spelling) — accepted or not — plus the bare alias, 14 near misses per alias, every prefix alone, every non-unit identifier, every variable/function name; all readings pairwise collision-checked; the registered table compared with a plain-text reading of the @aliases/@metric_prefixes/@binary_prefixes declarations in the .nbt files; the table replayed through a fresh real parser and the model in two orders; the displayed text of every accepted (prefix, alias) re-resolved (hook text for all, `1 <ident>` through the interpreter for a sample in quick and all in thorough). RANDOM part: definition sequences on a fresh parser through the real API (names = up to two prefix strings + a stem from a clash-prone list; unit/other/shadow/query) and statement sequences through the language on top of the prelude (unit definitions with @metric_prefixes/@binary_prefixes/@aliases annotations, let, fn with parameters), each followed by resolving every identifier the definitions can form. distinct = distinct case text; non-trivial = an alias that accepts prefixes (exhaustive part), a sequence with >= 2 accepted units and >= 1 rejected definition (seq), >= 1 accepted and >= 1 rejected statement (lang)".into();
 
-    let prefixes = prefix_rows();
+    // The oracle's prefix table is the *documented* one (SI brochure 9th ed. incl. 2022 additions; IEC 80000-13
+    // binary prefixes up to 2^100 as numbat documents them), written out here, NOT the parser's own table: a
+    // prefix missing from or altered in the parser then shows up as a concrete identifier that does not resolve.
+    let prefixes = documented_prefix_rows();
+    {
+        let own = prefix_rows();
+        for d in &prefixes {
+            match own.iter().find(|o| o.prefix == d.prefix) {
+                None => out.count("documented_prefix_missing_from_parser_table"),
+                Some(o) => {
+                    if o.long != d.long || o.shorts != d.shorts || o.text_short != d.text_short || o.text_long != d.text_long {
+                        out.count("documented_prefix_differs_in_parser_table");
+                    }
+                }
+            }
+        }
+        for o in &own {
+            if !prefixes.iter().any(|d| d.prefix == o.prefix) {
+                out.count("parser_prefix_not_documented");
+            }
+        }
+    }
     let mut ms = ModelState { marks: HashSet::new() };
     let mut sessions: BTreeMap<&'static str, Session> = BTreeMap::new();
 
